@@ -13,7 +13,7 @@ import (
 )
 
 func init() {
-	register("C04", "Structural clauses behind termination and honest results under faults, decided on all paths: every blocking channel operation of the transfer code is a select with a context/close-channel arm (or a range over a channel closed by one deferred close), a failed source access or diff is reported to the peer with an ERR packet before the goroutine returns (the receiver's deferred ERR send and the writer's deferred cancel test the named result of the function that installs them and cannot be skipped when it is non-nil), the receive loops return success only on the FIN arm (end of stream before FIN is an error), the receiver sends FIN only after a checked diff and a checked wait for the writers, no protocol or source-access error is dropped or survived, every goroutine is started through an errgroup whose Wait precedes the return, and walkers poll the context before each callback. In the walking code (filter, fs, hard-link filter, follow-links, stat, tar writer) no error of a stat, readlink, xattr listing, nested walk or constructor is dropped or survived (tolerated: not-found of a followed path, ENOTSUP of xattr listing, the error handed to the caller's callback); a deferred function replaces a walk callback's error result by SkipDir or nil only on the true edge of a predicate on that very error; DiskWriter.HandleChange retries itself only when the failed Mkdir reported EEXIST. Walk callbacks never go on after a non-nil error argument; no error result in packages fsutil and util is left unread (best-effort sends, closes and tabled callees excepted). Does not decide time bounds, SIGKILL/crash recovery, convergence of a later transfer, or behaviour when the stream's own SendMsg/RecvMsg never return.", runC04)
+	register("C04", "Structural clauses behind termination and honest results under faults, decided on all paths: every blocking channel operation of the transfer code is a select with a context/close-channel arm (or a range over a channel closed by one deferred close), a failed source access or diff is reported to the peer with an ERR packet before the goroutine returns (the receiver's deferred ERR send and the writer's deferred cancel test the named result of the function that installs them and cannot be skipped when it is non-nil), the receive loops return success only on the FIN arm (end of stream before FIN is an error), the receiver sends FIN only after a checked diff and a checked wait for the writers, no protocol or source-access error is dropped or survived, every goroutine is started through an errgroup whose Wait precedes the return, and walkers poll the context before each callback. In the walking code (filter, fs, hard-link filter, follow-links, stat, tar writer) no error of a stat, readlink, xattr listing, nested walk or constructor is dropped or survived (tolerated: not-found of a followed path, ENOTSUP of xattr listing, the error handed to the caller's callback); a deferred function replaces a walk callback's error result by SkipDir or nil only on the true edge of a predicate on that very error; DiskWriter.HandleChange retries itself only when the failed Mkdir reported EEXIST. Walk callbacks never go on after a non-nil error argument; no error result in packages fsutil and util is left unread (best-effort sends, closes and tabled callees excepted). The file ids both ends key their tables by are the zero-based positions in the STAT sequence (counter from 0, one increment per announced entry, registration with the pre-increment value; shared with C06/C07): two ends that agree with each other on any other numbering hand a conforming peer a neighbouring file's bytes. Does not decide time bounds, SIGKILL/crash recovery, convergence of a later transfer, or behaviour when the stream's own SendMsg/RecvMsg never return.", runC04)
 }
 
 func runC04(c *Ctx) {
@@ -43,6 +43,10 @@ func runC04(c *Ctx) {
 	r04_15(c, "R04.15")
 	errDisciplineAll(c, "R04.16", 1, "fsutil", "util")
 	r04_17(c, "R04.17")
+	// success with the wrong bytes on disk: a request names the entry it is
+	// made for only if ids are zero-based STAT positions on both ends (shared
+	// with C06/C07)
+	idNumbering(c, "R04.18", "R04.19", "R04.20")
 }
 
 // transferFuncs: non-test functions of packages fsutil and copy.
